@@ -40,8 +40,14 @@ package slug
 
 //@ func (*Packer).resolveExternalLink -> (r, err)
 //@   sweep
+//@   requires pre.p: p != nil
+//@   ensures C19.result: err == nil ==> r != nil
+
+//@ func (*Packer).followExternalLink -> (r, err)
+//@   sweep
 //@   replay packCycle:
 //@   requires pre.p: p != nil
+//@   decreases C19.terminates: hops
 //@   ensures C19.result: err == nil ==> r != nil
 
 //@ func parseIgnoreFile -> (r)
